@@ -30,6 +30,14 @@ CHECKS = {
             "values of every space must equal derivation from scratch along the harness's own C3. The n<=4 part is exhaustive; "
             "histories are a sample.",
             "trusts the harness C3 (cross-checked against Python's class MRO), accept-follows-real for which edits are accepted; allow_none propagation and member order not asserted"),
+    "C05": ("fault_enumeration",
+            "fault injection over generated dependency DAGs (Hypothesis): every reachable element in turn is the failure point, x exception kinds x prior holdings x repair, checked against holdings and execution logs predicted from reference call trees; depth probes for set_recursion and a subprocess survival run",
+            "For each generated DAG model every element reachable from the top query is made to fail in turn (one harness fault "
+            "tag per element), with several exception kinds, None results, deleted references, with and without values held "
+            "before, with formula errors on and off, followed by disarm/repair and retry. After each evaluation the error "
+            "wrapper and original exception, the exact set of held elements, the execution log, the executor's stacks and the "
+            "library self-checks are compared with the prediction. Fault positions are enumerated per model; models are sampled.",
+            "faults are exceptions (or None results) raised at formula level by a harness function; executor internals are peeked via getattr; depth boundary k..k+1 is not asserted"),
     "C06": ("exploration",
             "property-based testing (Hypothesis) of value-edit histories against an exact-discard oracle built from the reference interpreter's call trees plus the execution log",
             "Generated DAG models are warmed up and then edited element by element (assign, overwrite, clear_at, clear, clear_all, "
